@@ -537,7 +537,7 @@ class C08Executor(readfile.ReadFileExecutor):
 
     def lazy_generator(self, n, st):
         """Generator expression over symbolic sequences -> (bound variables, range condition, element) for any()/all().
-        Requires the element and the conditions to be pure, non-forking and non-raising."""
+        Requires the conditions to be non-forking and the element to be pure and non-raising (it may fork)."""
         from pyvc.ops import Unsupported
         s = st.fork()
         vars_, conds = [], []
@@ -560,11 +560,15 @@ class C08Executor(readfile.ReadFileExecutor):
                     raise Unsupported(f"{self.loc(n)} forking condition in generator")
                 s = r[0][0]
                 conds.append(self.truth(s, r[0][1]).t)
+        base = len(s.pc)
         r = self.ev(n.elt, s)
-        if len(r) != 1 or len(self.sinks[-1]) != mark:
+        if not r or len(self.sinks[-1]) != mark:
             del self.sinks[-1][mark:]
-            raise Unsupported(f"{self.loc(n)} forking / raising element in generator")
-        return [(st, VGen(vars_, z3.And(conds), self.truth(r[0][0], r[0][1]).t))]
+            raise Unsupported(f"{self.loc(n)} raising element in generator")
+        # an element that forks (a helper with an early return, a conditional expression): the case split stays inside
+        # the quantifier -- the cases are exhaustive and exclusive path conditions added after `base`
+        cases = [z3.And([z3.BoolVal(True)] + list(s_.pc[base:]) + [self.truth(s_, v_).t]) for (s_, v_) in r]
+        return [(st, VGen(vars_, z3.And(conds), z3.Or(cases)))]
 
     def b_reversed(self, st, args, kwargs, node):
         if args and isinstance(args[0], VSeq):
